@@ -10,25 +10,25 @@ TRUST_RUN = "Trusted: tokio mpsc/RwLock (exercised, not explored inside), future
 TRUST_BUILD = "Trusted: petgraph/daggy primitives as used by the reference comparison (only raw edge lists are read), the harness' reference models. Bounded to the sizes written into the evidence file."
 
 props = {
- "C01": ("S+C", "Exhaustive over every labelled DAG x every read/write declaration (n<=3 over 2 types, n=4 over 1 type), built through the real builder, then every schedule of the concurrent _with APIs and the streams incl. interrupts, failing subsets and StreamOpts builder call orders; plus large enumerated families (two writers up to 300 unrelated functions apart, up to 130 data types, arithmetic irregular DAGs on 70/100 nodes) under five base schedules; oracle computed from the declarations only: no conflicting pair in flight at any Start/yield.", "4.C01", TRUST_RUN, "stateless schedule enumeration (DFS over environment choices) of the real code + declaration-level conflict oracle"),
+ "C01": ("S+C", "Exhaustive over every labelled DAG x every read/write declaration (n<=3 over 2 types, n=4 over 1 type), built through the real builder, then every schedule of the concurrent _with APIs and the streams incl. interrupts, failing subsets and StreamOpts builder call orders; plus large enumerated families (two writers up to 300 unrelated functions apart, up to 130 data types, arithmetic irregular DAGs on 70/100 nodes, declared shapes of 256/257/300 functions) under five base schedules; oracle computed from the declarations only: no conflicting pair in flight at any Start/yield.", "4.C01", TRUST_RUN, "stateless schedule enumeration (DFS over environment choices) of the real code + declaration-level conflict oracle"),
  "C02": ("S+C", "Exhaustive over all labelled DAGs up to n=4 (quick) / n=5 (thorough), all 20 future-returning methods and 4 streams, both orders, limits, every interrupt position and failing subset (n<=3/4): at every hand-out all transitive user-edge predecessors have finished (FnRefs dropped).", "4.C02", TRUST_RUN, "stateless schedule enumeration of the real code + transitive-closure oracle"),
  "C03": ("S+C", "Same executions as C02 plus wide families (antichain, fans, two-depth fans, comb, bipartite, chain, tree up to 257/1025 nodes) with <=1 deviation from four base schedules, every topologically labelled DAG on 6 nodes (all isomorphism classes), 675 irregular graphs under schedules that keep a maximum antichain in flight, large irregular graphs: no second hand-out, every function handed out in clean runs, and no clean run that can never hand out a function.", "4.C03", TRUST_RUN, "stateless schedule enumeration + deviation-bounded exploration of wide graphs"),
- "C04": ("S", "All shapes from the empty graph up, all 20 methods, limits, every interrupt position/strategy/include flag, every failing subset, <=2 spurious polls, fresh waker per poll, tokio cooperative budget exhausted inside a poll (real tokio code path), wide families incl. everything-fails: the future always returns, never panics, is never pending without wake-up while nothing is left to complete, and every started user future has ended at return.", "4.C04", TRUST_RUN, "stateless schedule enumeration with deadlock / lost-wake-up / livelock detection in a controlled executor"),
- "C05": ("C", "Every consumer behaviour on all shapes n<=4 (quick) / 5 (thorough): any interleaving of poll_next and FnRef drops (several between polls), stream dropped at every point, spurious polls, fresh wakers, exhausted tokio budget, wide families with hold-everything-then-drop-everything consumers: Pending without wake-up only if every unyielded function is still blocked; parked consumer implies ended stream; None exactly after all yielded; no panic.", "4.C05", TRUST_RUN + " Cross-thread FnRef drops are covered by the reduction argument of DESIGN 2.2 (a drop and a poll share only the done channel).", "stateless consumer-behaviour enumeration of the real stream"),
+ "C04": ("S", "All shapes from the empty graph up, all 20 methods, limits, every interrupt position/strategy/include flag, every failing subset, <=2 spurious polls, fresh waker per poll, tokio cooperative budget exhausted inside a poll (real tokio code path), wide families incl. everything-fails, wide graphs polled inside a tokio task (budget 128..125 per poll): the future always returns, never panics, is never pending without wake-up while nothing is left to complete, and every started user future has ended at return.", "4.C04", TRUST_RUN, "stateless schedule enumeration with deadlock / lost-wake-up / livelock detection in a controlled executor"),
+ "C05": ("C", "Every consumer behaviour on all shapes n<=4 (quick) / 5 (thorough): any interleaving of poll_next and FnRef drops (several between polls), stream dropped at every point, spurious polls, fresh wakers, exhausted tokio budget, wide families with hold-everything-then-drop-everything consumers, wide graphs polled inside a tokio task: Pending without wake-up only if every unyielded function is still blocked; parked consumer implies ended stream; None exactly after all yielded; no panic.", "4.C05", TRUST_RUN + " Cross-thread FnRef drops are covered by the reduction argument of DESIGN 2.2 (a drop and a poll share only the done channel).", "stateless consumer-behaviour enumeration of the real stream"),
  "C06": ("B+S+C", "Static half: every edge of every built graph (C11's space) that the user did not add is a Data edge between conflicting functions. Dynamic half: at every idle point (Pending, no wake-up) of every unlimited, uninterrupted, non-failing concurrent run / stream, every function whose built-graph predecessors finished has been started.", "4.C06", TRUST_RUN, "exhaustive input enumeration + stateless schedule enumeration with an idle-point oracle"),
- "C07": ("S", "Every non-empty failing subset x shape (n<=3 quick, 4 thorough) x 12 try APIs x order x limit, graphs with data-conflict edges, failure+interrupt, exhausted tokio budget on the failure path, wide all-fail antichains (result channel sizing): errors returned = started failing functions exactly once, nothing ordered after a failed function starts, in-flight work finishes before return, try_fold stops at the first error.", "4.C07", TRUST_RUN, "stateless schedule enumeration x exhaustive fault-set enumeration"),
- "C08": ("S+C", "Interrupt offered at every inter-poll point incl. before the first poll, 10 _with APIs and the interruptible streams x 9 strategy/include combinations x order x limit: number of functions started after the signal within the stated bound, started functions finish and are reported, call returns; IgnoreInterruptions and stream_with checked differentially (trace set with signal = trace set without).", "4.C08", TRUST_RUN + " The reading of the bounds was validated against interruptible 0.2.4.", "stateless schedule enumeration with the signal as an environment action + differential trace-set comparison"),
+ "C07": ("S", "Every non-empty failing subset x shape (n<=3 quick, 4 thorough) x 12 try APIs x order x limit, graphs with data-conflict edges, failure+interrupt, exhausted tokio budget on the failure path, wide all-fail antichains (result channel sizing), wide graphs polled inside a tokio task (cooperative budget 128..125 per poll) with one failing function that has a successor: errors returned = started failing functions exactly once, nothing ordered after a failed function starts, in-flight work finishes before return, try_fold stops at the first error.", "4.C07", TRUST_RUN, "stateless schedule enumeration x exhaustive fault-set enumeration"),
+ "C08": ("S+C", "Interrupt offered at every inter-poll point incl. before the first poll, 10 _with APIs and the interruptible streams x 9 strategy/include combinations x order x limit, wide and irregular graphs with everything in flight completing in the window of the signal (also inside a tokio task): number of functions started after the signal within the stated bound, started functions finish and are reported, call returns; IgnoreInterruptions and stream_with checked differentially (trace set with signal = trace set without).", "4.C08", TRUST_RUN + " The reading of the bounds was validated against interruptible 0.2.4.", "stateless schedule enumeration with the signal as an environment action + differential trace-set comparison"),
  "C09": ("S", "On every execution of the plain, interrupted and failing run spaces: fn_ids_processed = start order, fn_ids_not_processed = complement in insertion order, state = Finished iff all processed, control variants Continue iff Finished and nothing broke.", "4.C09", TRUST_RUN, "stateless schedule enumeration + outcome-vs-trace oracle"),
  "C10": ("S", "limit in {None,0,1,2,3} x 12 concurrent and 8 fold methods x order x shapes (n<=4/5), with failures and interrupts, wide families with limits up to 8: in-flight count never exceeds the limit (1 for folds), every limited run completes.", "4.C10", TRUST_RUN, "stateless schedule enumeration + in-flight counter oracle"),
  "C11": ("B", "Every (labelled DAG, edge insertion order, edge kinds, declaration over 2 types) input up to n=3 and n=4 over 1 type (quick), n=4 over 2 types / n=5 over 1 type / n=3 over 3 types (thorough): build() does not panic, functions sit under the ids add_fn returned, user edges kept with kinds, extra edges are Data between conflicting functions, graph acyclic, every conflicting pair joined by a path.", "4.C11", TRUST_BUILD, "exhaustive bounded input enumeration against a reference model"),
  "C12": ("B", "Same inputs: the Data edge set equals TR(U + R) \\ U where R orders unordered conflicting pairs by (logic rank, insertion index); building twice gives == graphs and equal ranks; every single-call mutation of the builder call sequence (function, endpoint, kind) gives a != graph.", "4.C12", TRUST_BUILD, "exhaustive bounded input enumeration against an independent characterisation (transitive reduction)"),
  "C13": ("B", "Every labelled DAG to n=5 (quick) / 6 (thorough) with every edge insertion permutation for n<=4, with and without declarations, plus chains, stars, trees, bipartite, complete, layered and diamond families to n=40: ranks() equals the longest-path DP.", "4.C13", TRUST_BUILD, "exhaustive bounded input enumeration against longest-path DP"),
- "C14": ("B", "Every built graph of C11's space: iter, iter_rev, toposort, map, fold, try_fold, for_each, try_for_each, iter_insertion* visit each function once in an order consistent with every built edge; try_fold/try_for_each with the failure injected at every position return that error after exactly that many invocations.", "4.C14", TRUST_BUILD, "exhaustive bounded input enumeration x fault position enumeration"),
+ "C14": ("B", "Every built graph of C11's space: iter, iter_rev, toposort, map, fold, try_fold, for_each, try_for_each, iter_insertion* visit each function once in an order consistent with every built edge; try_fold/try_for_each with the failure injected at every position return that error after exactly that many invocations; plus every history of up to 4 sequential calls (complete, cut short or failing at every position, an async run) on one graph value, verdict on the last call.", "4.C14", TRUST_BUILD, "exhaustive bounded input enumeration x fault position enumeration"),
  "C15": ("S+C", "Histories on one graph value: every first run (15 API/option combinations, every node of its DFS tree as abort point, streams incl. dropping the stream anywhere) followed by the full DFS of every second run (8 combinations), compared choice-for-choice with the same second run on a freshly built graph; later second runs see all earlier ones as history.", "4.C15", TRUST_RUN, "exhaustive history enumeration with a differential (fresh-graph) oracle"),
- "C16": ("B", "Explicit-state search over all sequences of add_logic_edge/add_contains_edge calls (self edges, repeats, reversed pairs) up to length 5 (n=2), 4 (n=3), 3 (n=4) (one longer in thorough), single and batch forms: accept/reject results and the built edge set equal a map + reachability model.", "4.C16", TRUST_BUILD, "explicit-state search over operation sequences against a reference model"),
+ "C16": ("B", "Explicit-state search over all sequences of add_logic_edge/add_contains_edge calls (self edges, repeats, reversed pairs) up to length 5 (n=2), 4 (n=3), 3 (n=4) (one longer in thorough), single and batch forms, plus all sequences over five representative functions at 5..129 (257) functions with functions added up front and lazily between the calls, plus the grow-a-DAG probe search: accept/reject results and the built edge set equal a map + reachability model.", "4.C16", TRUST_BUILD, "explicit-state search over operation sequences against a reference model"),
  "C17": ("B", "Every built graph of C11's quick space: GraphInfo::from_graph has mapped nodes in insertion order and exactly the raw edges with kinds; serde_yaml_ng round trip gives an equal value; iter/iter_rev are (reverse) topological.", "4.C17", TRUST_BUILD + " serde_yaml_ng is exercised, not verified.", "exhaustive bounded input enumeration incl. serialisation round trip"),
  "C18": ("B", "Guarded pop counter of RankCalc on every labelled DAG to n=5 (quick) / 6 (thorough) and on complete, layered (2-4 wide), diamond-chain and bipartite families to n=64 (96 thorough): each function popped <= n times, total <= n^2+n, with a hook-side abort so that a path-exponential implementation is reported instead of hanging.", "4.C18", TRUST_BUILD + " Uses the verif_hooks counter in RankCalc::calc.", "exhaustive bounded input enumeration with an instrumented step counter"),
- "C20": ("S+C", "Two &self runs (6 future configurations and 2 streams, 36 unordered pairs) on one shared graph driven by one explorer: every interleaving within the switch bound (unbounded for n<=1, 2 for n=2, deviation-bounded for n=3) and every environment answer of both; each run's projection is replayed alone on a fresh graph and must be identical (trace, menus, result).", "4.C20", TRUST_RUN + " Runs on different OS threads are modelled at poll granularity (FnGraph exposes no interior mutability).", "context-bounded interleaving of two real runs with a differential (solo replay) oracle"),
+ "C20": ("S+C", "Two &self runs (6 future configurations and 2 streams, 36 unordered pairs) on one shared graph driven by one explorer: every interleaving within the switch bound (unbounded for n<=1, 2 for n=2, deviation-bounded for n=3) and every environment answer of both; three simultaneous runs on chains, antichains, combs, fan-ins, layered graphs and diamond chains of 9..66 (130) functions; each run's projection is replayed alone on a fresh graph and must be identical (trace, menus, result).", "4.C20", TRUST_RUN + " Runs on different OS threads are modelled at poll granularity (FnGraph exposes no interior mutability).", "context-bounded interleaving of two real runs with a differential (solo replay) oracle"),
 }
 
 engines = [
